@@ -22,21 +22,17 @@ open AN (QCol SCol)
 /-- a relation: its columns in order, each with the base columns flowing into it -/
 abbrev Rel := List (String × List SrcCol)
 
-/-- the relation a catalogue entry denotes; `flowSchema` is how an absent schema is written in a source column -/
-def baseRel (flowSchema : Option String → Option String) (c : CreateTable) : Rel :=
-  c.columns.map fun d => (d.name, [⟨flowSchema c.table.schema, c.table.name, some d.name⟩])
-
-/-- how the implementation writes the schema of a base column: `''` when the table has none (finding F-C16-1);
-the specification's own choice is `id` (an absent schema stays absent) -/
-def implSchema (s : Option String) : Option String := some (s.getD "")
+/-- the relation a catalogue entry denotes: an absent schema stays absent -/
+def baseRel (c : CreateTable) : Rel :=
+  c.columns.map fun d => (d.name, [⟨c.table.schema, c.table.name, some d.name⟩])
 
 /-- the catalogue entry a table reference denotes (the test getter strips back-quotes from the requested name) -/
 def catLookup (cat : Cat) (t : StdTable) : Option CreateTable :=
   (cat.find? (·.1 == PM.unifyName (StdTable.source t))).map (·.2)
 
 /-- the relation in scope under the name `t`: the base table that the FROM / JOIN clauses bind to `t` -/
-def scopeRel (flowSchema : Option String → Option String) (cat : Cat) (tn : List (String × StdTable)) (t : String) : Option Rel :=
-  (AN.dictGet? tn t).bind fun std => (catLookup cat std).map (baseRel flowSchema)
+def scopeRel (cat : Cat) (tn : List (String × StdTable)) (t : String) : Option Rel :=
+  (AN.dictGet? tn t).bind fun std => (catLookup cat std).map baseRel
 
 /-- what flows into a qualified reference `t.n` -/
 def flowRef (scope : String → Option Rel) (r : QCol) : Option (List SrcCol) :=
